@@ -541,6 +541,11 @@ def _analyse_own(chk):
     chk.guard(rule_accumulate, prog, tree)
     chk.guard(rule_shape_guard, prog)
     chk.guard(rule_cutoff_pair, prog)
+    chk.rule("stale-loop-var", "evaluator classes: no `for` target is read after its loop has ended (a statement "
+                               "dedented out of a per-spin / per-term loop acts on the last item only)")
+    chk.guard(lambda c_: er.check_stale_loop_vars(
+        c_, prog, list(LADDER_CLASSES) + [(m_.rel, k_.name) for m_, k_ in evaluator_classes(prog)]))
+    chk.floor("stale-loop-var", 4, "methods with loops in the evaluator base classes and FuncEvaluator subclasses")
     chk.guard(rule_mode_ladders, prog)
     chk.guard(rule_baseline_degree, prog)
     chk.rule("singular-override", "native baselines: no output carries a singular factor after the masked override "
@@ -591,6 +596,14 @@ def mutants(tree):
                "    dchfx *= dx\n    chfx[s2 < 1e-8] = 1 + 8 * s2[s2 < 1e-8] / 27\n    dchfx[s2 < 1e-8] = 8.0 / 27\n",
                "    chfx[s2 < 1e-8] = 1 + 8 * s2[s2 < 1e-8] / 27\n    dchfx[s2 < 1e-8] = 8.0 / 27\n    dchfx *= dx\n",
                expect="singular-override"),
+        Mutant("v1 SEP: derivative zeroing dedented out of the spin loop", XE,
+               "                    res[s][cond[s]] = 0.0\n                    dres[s][:, cond[s]] = 0.0\n",
+               "                    res[s][cond[s]] = 0.0\n                dres[s][:, cond[s]] = 0.0\n",
+               expect="stale-loop-var"),
+        Mutant("spline evaluator: gradient accumulation dedented out of the term loop", XE,
+               "            res[:] += y * self.scale[t]\n            dres[:, ind_set] += dy * self.scale[t]\n",
+               "            res[:] += y * self.scale[t]\n        dres[:, ind_set] += dy * self.scale[t]\n",
+               expect="stale-loop-var"),
         Mutant("linear evaluator overwrites res", XE, "res[:] += X1.dot(self.consts)", "res[:] = X1.dot(self.consts)",
                expect="accumulate-py"),
         Mutant("spline evaluator overwrites dres columns", XE, "dres[:, ind_set] += dy * self.scale[t]",
